@@ -933,6 +933,7 @@ theorem dinv_xstep (cfg : Config) {x : XState} (op : XOp) (h : DInv x.s) : DInv 
   cases op with
   | base op => rw [dxstep_s]; exact dinv_step cfg op h
   | cleanup => exact dinv_cleanupTick h
+  | putRefused k v => exact h
 
 theorem dinv_xrun (cfg : Config) (ops : List XOp) : ∀ x : XState, DInv x.s → DInv (xrun cfg x ops).s := by
   induction ops with
@@ -943,10 +944,12 @@ theorem dinv_xrun (cfg : Config) (ops : List XOp) : ∀ x : XState, DInv x.s →
 def xrevives (k : Key) : XOp → Bool
   | .base op => revives k op
   | .cleanup => false
+  | .putRefused _ _ => false
 
 def xtouches (k : Key) : XOp → Bool
   | .base op => touches k op
   | .cleanup => false
+  | .putRefused _ _ => false
 
 theorem dead_xrun (cfg : Config) {k : Key} (ops : List XOp) : ∀ x : XState, Dead k x.s →
     (∀ op ∈ ops, xrevives k op = false) → Dead k (xrun cfg x ops).s := by
@@ -959,6 +962,7 @@ theorem dead_xrun (cfg : Config) {k : Key} (ops : List XOp) : ∀ x : XState, De
     cases op with
     | base op => rw [dxstep_s]; exact dead_step cfg op h h0
     | cleanup => exact dead_cleanupTick h
+    | putRefused k' v' => exact h
 
 theorem kept_xrun (cfg : Config) {k : Key} {v : Val} (ops : List XOp) : ∀ x : XState, Kept k v x.s →
     (∀ op ∈ ops, xtouches k op = false) → Kept k v (xrun cfg x ops).s := by
@@ -971,6 +975,7 @@ theorem kept_xrun (cfg : Config) {k : Key} {v : Val} (ops : List XOp) : ∀ x : 
     cases op with
     | base op => rw [dxstep_s]; exact kept_step cfg op h h0
     | cleanup => exact kept_cleanupTick h
+    | putRefused k' v' => exact h
 
 theorem last_xrun (cfg : Config) (ops : List XOp) : ∀ (x : XState) (r : Ref), LastD x.s r →
     LastD (xrun cfg x ops).s (CacheMap.runLastPut r (ops.map (absXOp cfg))) := by
@@ -982,6 +987,7 @@ theorem last_xrun (cfg : Config) (ops : List XOp) : ∀ (x : XState) (r : Ref), 
     cases op with
     | base op => rw [dxstep_s]; exact last_step cfg op h
     | cleanup => exact last_cleanupTick h
+    | putRefused k' v' => exact h
 
 theorem record_le (m : Metrics) (b : Bool) (h : m.hits ≤ m.gets) : (m.record b).hits ≤ (m.record b).gets := by
   cases b <;> simp [Metrics.record] <;> omega
@@ -990,6 +996,7 @@ theorem dmetrics_xstep (cfg : Config) {x : XState} (op : XOp) (h : x.m.hits ≤ 
     (xstep cfg x op).1.m.hits ≤ (xstep cfg x op).1.m.gets := by
   cases op with
   | cleanup => exact h
+  | putRefused k v => exact h
   | base op =>
     cases op with
     | get k => exact record_le _ _ h
